@@ -2,7 +2,13 @@
 
 Runtime monitor: drv_jitalloc (ASan+UBSan build, hook H2) drives bounded-exhaustive and random
 histories against a sequential model; this module shards the work, merges what the monitors saw
-and turns it into a verdict."""
+and turns it into a verdict.
+
+Round 11 additions: the fill pattern is compared with the REQUESTED one; requests of 2^31..SIZE_MAX bytes; queries of the
+granules next to a live span; shrink() through stale spans; fill pattern read back right after release/shrink;
+overhead_size()/unused_size()/ratios; invalid CreateParams; dense histories (up to 1500 live spans); what the OS maps
+(/proc/self/maps) against reserved_size() after reset/release-all/destructor; WriteScope and cache policies; mode
+`misuse`: pointers that are not live span starts handed to release() (one probe per short history)."""
 import json
 import os
 
@@ -13,7 +19,8 @@ DUAL, MULTI, FILL, IMM, NOPAD, LARGE, ALIGNLP, CUSTOM = 1, 2, 4, 8, 0x10, 0x20, 
 
 def option_sets():
     sets = []
-    singles = [0, DUAL, MULTI, FILL, IMM, NOPAD, LARGE, FILL | CUSTOM, LARGE | ALIGNLP]
+    singles = [0, DUAL, MULTI, FILL, IMM, NOPAD, LARGE, FILL | CUSTOM, LARGE | ALIGNLP, ALIGNLP,
+               FILL | CUSTOM | DUAL, FILL | CUSTOM | MULTI | IMM]
     for s in singles:
         sets.append(s)
     base = [DUAL, MULTI, FILL, IMM, NOPAD, LARGE]
@@ -23,6 +30,37 @@ def option_sets():
     sets.append(DUAL | MULTI | FILL | IMM | NOPAD)
     sets.append(MULTI | FILL | IMM)
     return sets
+
+
+PATTERNS = ["0x5AA5C33C", "0x01020304", "0xF4F4F4F4", "0x00000000", "0xFFFFFF00"]
+
+# CreateParams that are documented as invalid: the allocator must fall back to the defaults and then behave like any other
+INVALID_PARAMS = [("--granularity", "32"), ("--granularity", "96"), ("--granularity", "512"), ("--granularity", "1024"),
+                  ("--granularity", "16384"), ("--block-size", "4096"), ("--block-size", "32768"), ("--block-size", "100000"),
+                  ("--block-size", "196608"), ("--block-size", "0x20000000"), ("--block-size", "0xFFFFFFFF")]
+
+
+def pattern_for(o, i):
+    """custom pattern when kCustomFillPattern is set; otherwise every other job passes a pattern that must be ignored"""
+    if o & CUSTOM:
+        return PATTERNS[i % len(PATTERNS)]
+    return "0xA5A5A5A5" if i % 2 else "0"
+
+
+def extra_jobs(tier, rng, scale):
+    """dimensions added in round 11: invalid CreateParams, pointers that are not span starts handed to release()"""
+    jobs = []
+    nh = max(1, int((4 if tier == "quick" else 16) * scale))
+    nops = 1500 if tier == "quick" else 6000
+    for i, (k, v) in enumerate(INVALID_PARAMS):
+        o = [0, MULTI, FILL, DUAL | IMM][i % 4]
+        jobs.append(["--mode", "random", "--histories", str(nh), "--ops", str(nops), "--options", str(o), k, v,
+                     "--seed", str(rng.next() % (1 << 40))])
+    nm = max(6, int((45 if tier == "quick" else 600) * scale))
+    for i, o in enumerate([0, DUAL, MULTI, FILL, IMM, MULTI | FILL | IMM, DUAL | MULTI, FILL | CUSTOM]):
+        jobs.append(["--mode", "misuse", "--histories", str(nm), "--options", str(o), "--granularity", str([0, 128, 256][i % 3]),
+                     "--fill-pattern", pattern_for(o, i), "--seed", str(rng.next() % (1 << 40))])
+    return jobs
 
 
 def make_jobs(tier, seed, scale):
@@ -43,8 +81,9 @@ def make_jobs(tier, seed, scale):
             bs = [0, 65536, 131072, 262144][(i // 3) % 4]
             jobs.append(["--mode", "random", "--histories", str(nh), "--ops", str(nops), "--options", str(o),
                          "--granularity", str(gran), "--block-size", str(bs),
-                         "--fill-pattern", "0x5AA5C33C" if o & CUSTOM else "0",
+                         "--fill-pattern", pattern_for(o, i),
                          "--seed", str(rng.next() % (1 << 40))])
+        jobs += extra_jobs(tier, common.Rng(seed ^ 0xC09E), scale)
     else:
         for sh in range(32):
             jobs.append(["--mode", "exh", "--depth", "6", "--few-sizes", "--shards", "32", "--shard", str(sh)])
@@ -54,14 +93,19 @@ def make_jobs(tier, seed, scale):
             jobs.append(["--mode", "exh", "--depth", "5", "--few-sizes", "--options", str(o),
                          "--fill-pattern", "0x5AA5C33C" if o & CUSTOM else "0"])
         nh, nops = int(40 * scale) or 1, 10000
-        for rep in range(6):
+        for rep in range(5):       # (29 option sets x 5 repetitions; it was 26 x 6 before the sets of round 11 were added)
             for i, o in enumerate(sets):
                 gran = [0, 128, 256][(i + rep) % 3]
                 bs = [0, 65536, 131072, 262144][(i // 3 + rep) % 4]
                 jobs.append(["--mode", "random", "--histories", str(nh), "--ops", str(nops), "--options", str(o),
                              "--granularity", str(gran), "--block-size", str(bs),
-                             "--fill-pattern", "0x5AA5C33C" if o & CUSTOM else "0",
+                             "--fill-pattern", pattern_for(o, i + rep),
                              "--seed", str(rng.next() % (1 << 40))])
+        jobs += extra_jobs(tier, common.Rng(seed ^ 0xC09E), scale)
+        # long dense histories: up to 1500 live spans of 1..3 granules
+        for o in (0, MULTI | FILL, DUAL):
+            jobs.append(["--mode", "random", "--style", "3", "--histories", "2", "--ops", "40000", "--options", str(o),
+                         "--seed", str(rng.next() % (1 << 40))])
         # a few very long histories
         for o in (0, MULTI, FILL | DUAL, IMM):
             jobs.append(["--mode", "random", "--histories", "2", "--ops", "100000", "--options", str(o),
@@ -78,13 +122,16 @@ def run(tier, args):
     else:
         jobs = make_jobs(tier, chk.seed, args.scale)
 
+    os_every = ["--os-every", "1" if tier == "quick" else "3"]
+
     def one(argv):
-        rc, out, err = common.run_child([exe] + argv, timeout=3000)
+        rc, out, err = common.run_child([exe] + argv + ([] if args.replay else os_every), timeout=3000)
         return argv, rc, out, err
 
     tot = {"histories": 0, "h2_walks": 0, "bytes_verified": 0, "fill_checked": 0, "reuse_observed": 0,
            "max_live": 0, "max_blocks": 0}
     ops = {}
+    dims = {}
     distinct = set()
     distinct_all = 0
     exh_depth = 0
@@ -108,6 +155,8 @@ def run(tier, args):
         tot["max_blocks"] = max(tot["max_blocks"], res["max_blocks"])
         for k, v in res["ops"].items():
             ops[k] = ops.get(k, 0) + v
+        for k, v in res.get("dims", {}).items():
+            dims[k] = (dims.get(k, 0) + v) if k != "overhead_calibrated" else min(dims.get(k, 1), v)
         distinct.update(res["distinct"])
         distinct_all += res["distinct_all"]
         if argv[1] == "exh" and "--shard" not in argv or "--shard" in argv and argv[argv.index("--shard") + 1] == "0":
@@ -130,6 +179,7 @@ def run(tier, args):
         "max_live_spans": tot["max_live"],
         "max_blocks": tot["max_blocks"],
         "option_sets": len(option_sets()),
+        "added_dimensions": dims,
         "exhaustive_depth_reached": exh_depth,
         "exhaustive": False,
         "jobs": len(jobs),
@@ -138,5 +188,24 @@ def run(tier, args):
         "ASan/UBSan instrumented build of /repo's working tree with -DASMJIT_VERIF (hook H2 reads allocator state under its own lock)",
         "bounded-exhaustive part enumerates every op sequence up to the stated depth over {alloc x sizes, release, shrink-to-1, shrink-half, soft reset} on 64 KiB blocks; it is exhaustive for that alphabet only",
         "large pages are not available in this sandbox: kUseLargePages exercises the fallback path only",
+        "the expected fill pattern is the REQUESTED one (CreateParams::fill_pattern with kCustomFillPattern, otherwise what a default-constructed "
+        "allocator reports); invalid CreateParams are expected to select the documented defaults (taken from a default-constructed allocator)",
+        "overhead_size() is compared with a linear function of (blocks, granules) calibrated from two fresh one-block allocators in the same process "
+        "(exact with one pool, an interval with several pools)",
+        "mapped memory is read from /proc/self/maps (anonymous private rwx = single mapping, memfd 'vmem' / shm-id = both views of a dual mapping) and "
+        "compared with statistics().reserved_size(); sampled in 1 of 64 bounded-exhaustive histories",
+        "requests above 2^31-1 bytes may be refused or honoured; if honoured the span must be real and accounted (the memory is never touched); "
+        "sizes just below the limit are not generated (they would reserve 2 GiB)",
+        "release() probes with pointers that are not live span starts run one per short history (mode misuse), because an accepted probe "
+        "leaves the bookkeeping undefined",
     ]
+    if not args.replay and not chk.violations:
+        need = ["custom_pattern_allocators", "ignored_pattern_allocators", "huge_requests", "nonlive_queries", "stale_shrinks",
+                "release_fill_checked", "overhead_exact_checks", "invalid_param_allocators", "valid_block_size_allocators",
+                "os_map_checks_after_hard_reset", "os_map_checks_after_destroy", "scoped_writes", "policy_writes", "misuse_probes",
+                "dense_histories", "overhead_calibrated"]
+        empty = [k for k in need if not dims.get(k)]
+        if empty or tot["max_live"] < 400:
+            chk.finish()
+            raise common.HarnessError("dimension(s) without a single observation: %s (max_live_spans=%d)" % (empty, tot["max_live"]))
     return chk.finish()
